@@ -29,14 +29,18 @@ CLAIM = dict(
          "base.py equals the hand-typed frozen specification (Spec/Wire.lean); header frame = published bytes; every "
          "frame is a 4-byte big-endian length + one msgpack document that decodes to the packed value (M1); the type-14 "
          "envelope payload is the document [sub-type, payload]; big-integer magnitude encoding is inverse to "
-         "int.from_bytes for all naturals; compatibility rule for extra reserved fields / missing version. Tie: "
+         "int.from_bytes for all naturals; compatibility rule for extra reserved fields / missing version; M2: EVERY "
+         "encoding the msgpack format allows for a value (relation Encodes: any integer / length class wide enough, "
+         "fixext for its exact sizes, float32) - what an independent conforming writer may emit - is decoded to that "
+         "value, to any depth; M3: the packer's own output is one of them; the format is unambiguous. Tie: "
          "implementation bytes are decoded by the Lean reference reader to the records written; independently encoded "
          "conforming streams (non-minimal msgpack classes, older shapes) are decoded by the implementation; frozen "
          "golden corpus; identifiers re-computed with hashlib.",
     note="partial: 'streams archived from earlier releases' are represented by the shapes the compatibility code names "
          "(extra reserved fields, no version, name-only identifier) plus a golden corpus frozen at the pinned revision; "
          "no archive of historical files exists in the sandbox. SHA-256 itself is hashlib's.",
-    technique="Lean 4 `decide` obligations Gen = frozen Spec + reference decoder/encoder correspondence + golden corpus",
+    technique="Lean 4 `decide` obligations Gen = frozen Spec + induction over the msgpack format relation (all size "
+              "classes) + reference decoder/encoder correspondence + golden corpus",
     design="8/C02")
 RULE = ("impl2ref: record sequences as in C01; ref2impl: descriptor x records x shape{normal, extra reserved fields, "
         "unversioned, name-only id, bytes name id, repeated header} x PRNG-chosen msgpack size classes; golden: every "
